@@ -302,6 +302,27 @@ def path_conds(ctx: Ctx, f: Func, node: ast.AST) -> List[Tuple[ast.AST, bool]]:
         if isinstance(cur, (ast.FunctionDef, ast.AsyncFunctionDef, ast.Lambda)):
             break
         child, cur = cur, parent_of(cur)
+    # unit resolution: not (A and B) with A known -> not B;  (A or B) with not A known -> B
+    for _ in range(3):
+        known = {(norm(e), pol) for e, pol in out}
+        added = False
+        for e, pol in list(out):
+            if isinstance(e, ast.BoolOp) and ((isinstance(e.op, ast.And) and not pol) or (isinstance(e.op, ast.Or) and pol)):
+                want = isinstance(e.op, ast.And)  # conjuncts known true / disjuncts known false
+                open_ = []
+                for v in e.values:
+                    atoms = split_cond(v, want)
+                    if all((norm(a), p) in known for a, p in atoms):
+                        continue
+                    open_.append(v)
+                if len(open_) == 1:
+                    for a, p in split_cond(open_[0], not want):
+                        if (norm(a), p) not in known:
+                            out.append((a, p))
+                            known.add((norm(a), p))
+                            added = True
+        if not added:
+            break
     return out
 
 
